@@ -489,6 +489,13 @@ pub fn all_perms(n: usize) -> Vec<Vec<usize>> {
 
 /// after a complete teardown: nothing may still be alive (C05), monitors may have fired
 fn finish_run(shard: &mut Shard, replay: &J, what: &str) -> bool {
+    finish_run_ctx(shard, replay, what, false)
+}
+
+/// `two_streams_on_mpmc`: the run created a second stream on a move-out queue through
+/// MPMCFutUniReceiver::add_stream_with (open finding): both streams own every slot, so whatever
+/// the monitors report in such a run is attributed to that call shape.
+fn finish_run_ctx(shard: &mut Shard, replay: &J, what: &str, two_streams_on_mpmc: bool) -> bool {
     let alive = payload::alive_serials();
     if !alive.is_empty() {
         violation(
@@ -503,8 +510,14 @@ fn finish_run(shard: &mut Shard, replay: &J, what: &str) -> bool {
             ),
         );
     }
-    let vs = payload::take_violations();
+    let mut vs = payload::take_violations();
     let bad = !vs.is_empty();
+    if two_streams_on_mpmc {
+        for v in vs.iter_mut() {
+            v.sig = format!("two-streams-on-mpmc:{}", v.rule);
+            v.prop = "C05";
+        }
+    }
     if bad {
         shard.add_violations(vs, replay);
     }
@@ -605,6 +618,7 @@ fn run_random_once(
     };
     let nontrivial = st.saw_full && st.saw_wrap_delivery;
     let ops = st.ops;
+    let p6_used = st.p6_used;
     let cfgd = st.cfg.describe();
     let (mut sig, _) = st.teardown(&order);
     for o in &order {
@@ -620,7 +634,7 @@ fn run_random_once(
         .set("teardown_order", J::Arr(order.iter().map(|x| J::UInt(*x as u64)).collect()))
         .set("commands", J::Arr(cmds.iter().map(|c| J::s(format!("{:?}", c))).collect()))
         .set("history", hist::dump(&h, 400));
-    let bad = finish_run(shard, &replay, &cfgd);
+    let bad = finish_run_ctx(shard, &replay, &cfgd, p6_used);
     shard.evaluations += 1;
     shard.stat("ops", ops as u64);
     shard.distinct.insert(sig.get());
